@@ -50,6 +50,7 @@ RandFails(e) ==
                 \o F(e.val = B32!EncodeNoPad(e.y.bytes), e, "C08", "the secret is not the upper-case unpadded base32 of exactly the bytes taken from the random source")
                 \o F(B32!Region(e.val) = "accept" /\ B32!KeyOf(e.val) = e.y.bytes, e, "C08", "secret decoding does not map the secret back to the bytes taken")
                 \o F(\A a \in Ivs(rd) : \A b \in (usedIv \cup Ivs(rd)) \ {a} : DisjointIv(a, b), e, "C08", "a byte of the random source is used twice")
+                \o (IF e.x.conc THEN F(e.val = B32!EncodeNoPad(e.y.bytes), e, "C11", "a secret generated concurrently with others is not made of the bytes its own call took from the random source") ELSE <<>>)
                 \o (IF e.x.stream = "lin" THEN F(e.y.bytes = LinBytes(rd, Len(rd)), e, "C08", "bytes differ from the stream content at the offsets read") ELSE <<>>))
     ELSE IF e.op = "StreamEnd" THEN
         F(SumIv(usedIv) = e.x.pos, e, "C08", "bytes were taken from the random source that are in no secret (or the reverse)")
@@ -65,7 +66,7 @@ GroupFails(e) ==
     ELSE F(canon = Obs(e), e, "C07", "a spelling of the same secret is treated differently from the canonical spelling")
 
 PropIds == {"C01", "C02", "C03", "C04", "C05", "C06", "C07", "C08", "C10", "C11", "C12", "C13", "C14",
-            "C15", "C16", "C17", "INC", "NONE"}
+            "C15", "C16", "C17", "C20", "INC", "NONE"}
 
 (* ---- C11: a call made concurrently returns exactly what it returns when called alone ---- *)
 (* e.plan > 0: index of the call in the workload plan; e.phase = "solo" (the plan executed    *)
